@@ -500,3 +500,23 @@ _add(
     m("k8s-reunite-ignores-cache-scope", "redun/executors/k8s.py", "        if cache_scope == CacheScope.BACKEND and job.eval_hash in self.preexisting_k8s_jobs:", "        if job.eval_hash in self.preexisting_k8s_jobs:", "C32.6"),
     m("oneshot-existing-output-despite-no-cache", "redun/cli.py", "                if not args.no_cache and output_file.exists():", "                if output_file.exists():", "C32.6"),
 )
+_add(
+    "C28",
+    m(
+        "dryrun-exit-before-executor-validation",
+        S,
+        "        # Determine executor.\n        executor_name = job.get_option(\"executor\") or \"default\"\n",
+        "        if self._dryrun:\n            return\n\n        # Determine executor.\n        executor_name = job.get_option(\"executor\") or \"default\"\n",
+        "C28.5",
+    ),
+)
+_add(
+    "C36",
+    m(
+        "backfill-walk-skips-rows-with-execution-id",
+        "redun/backends/db/alembic/versions/cd2d53191748_make_job_execution_id_non_nullable.py",
+        "            join execution e on e.job_id = j.id\n            union",
+        "            join execution e on e.job_id = j.id\n            where j.execution_id is null\n            union",
+        "C36.4",
+    ),
+)
